@@ -151,38 +151,48 @@ Proof.
   rewrite <- E. apply listed_all; auto.
 Qed.
 
-Lemma slice_coherent f d a k st g :
-  coherentb f = true -> impl_slice f d a k st = Ok g -> coherentb g = true.
+(* invariant carried through the selectors of one sliceDimensions call *)
+Definition slice_inv (f g : io) : Prop :=
+  varlist g = varlist f /\ dvars g = dvars f /\ nvgl g = (nl g + 1)%nat
+  /\ exists s t, tflag g = Some (s, (sdate g, stime g) :: t).
+
+Lemma sel_one_inv f g s g' : slice_inv f g -> sel_one g s = Ok g' -> slice_inv f g'.
+Proof.
+  intros (VL & DV & NG & s1 & t & TF) H. unfold sel_one in H.
+  destruct (dim_len g (fst (fst s))) as [n|]; [|discriminate].
+  match type of H with (if ?c then _ else _) = _ => destruct c; [discriminate|] end.
+  destruct (fst (fst s)).
+  - rewrite TF in H. destruct (negb (Nat.eqb (length ((sdate g, stime g) :: t)) n)); [discriminate|].
+    destruct (picks ((sdate g, stime g) :: t) (snd s)) as [|[d0 t0] rest]; [discriminate|]. inv H.
+    unfold slice_inv, set_rows; simpl. rewrite TF. simpl. repeat split; auto. eauto.
+  - destruct (Nat.eqb (nvgl g) (n + 1)); [|discriminate]. inv H. unfold slice_inv; simpl. repeat split; auto; try lia; eauto.
+  - inv H. unfold slice_inv; simpl. repeat split; eauto.
+  - inv H. unfold slice_inv; simpl. repeat split; eauto.
+Qed.
+Lemma sel_all_inv f sels : forall g g', slice_inv f g -> sel_all g sels = Ok g' -> slice_inv f g'.
+Proof.
+  induction sels as [|s t IH]; simpl; intros g g' I H.
+  - inv H. exact I.
+  - bindinv H. eapply IH; [|exact H]. eapply sel_one_inv; eauto.
+Qed.
+
+Lemma slice_coherent f sels g :
+  coherentb f = true -> impl_slice f sels = Ok g -> coherentb g = true.
 Proof.
   intros C H. apply coherent_elim in C as [R T]. unfold impl_slice in H.
-  destruct (dim_len f d) as [n|] eqn:ED; [|discriminate].
   match type of H with (if ?c then _ else _) = _ => destruct c; [discriminate|] end.
   destruct (tflag_part_elim _ T) as (s1 & r0 & t & ET & ES & ER). rewrite ET in H.
   pose proof (coh_rest_elim _ R) as (H1 & H2 & H3 & H4 & H5 & H6 & H7 & H8 & H9).
   pose proof (newvl_coherent _ R) as NV. pose proof (varlist_nonempty _ R) as NE.
   bindinv H.
-  assert (VL : varlist a0 = varlist f /\ dvars a0 = dvars f).
-  { destruct d; simpl in E.
-    - destruct (pick (r0 :: t) a k st); [discriminate|]. destruct (negb _); [discriminate|]. inv E. unfold set_rows; simpl. rewrite ET. simpl. auto.
-    - destruct (Nat.eqb (nvgl f) (n + 1)); inv E. auto.
-    - inv E. auto.
-    - inv E. auto. }
-  destruct VL as [VL DV].
-  assert (NVa : newvl a0 = varlist f) by (unfold newvl, listed_existing; rewrite VL, DV; exact NV).
+  assert (I0 : slice_inv f f).
+  { unfold slice_inv. repeat split; auto. rewrite ET, ER. eauto. }
+  destruct (sel_all_inv _ _ _ _ I0 E) as (VL & DV & NG & s & t' & TF).
+  assert (NVa : newvl a = varlist f) by (unfold newvl, listed_existing; rewrite VL, DV; exact NV).
   eapply updatemeta_coherent; [exact H| | |].
   - rewrite NVa. exact NE.
-  - destruct d; simpl in E.
-    + destruct (pick (r0 :: t) a k st); [discriminate|]. destruct (negb _); [discriminate|]. inv E. unfold set_rows; simpl. rewrite ET. simpl. exact H8.
-    + destruct (Nat.eqb (nvgl f) (n + 1)); inv E. simpl. lia.
-    + inv E. simpl. exact H8.
-    + inv E. simpl. exact H8.
-  - rewrite NVa. unfold tflag_keep_ok. destruct d; simpl in E.
-    + destruct (pick (r0 :: t) a k st) as [|p0 pt]; [discriminate|]. destruct (negb _); [discriminate|]. inv E. unfold set_rows; simpl. rewrite ET. simpl.
-      destruct (Nat.eqb (nvars f) (length (varlist f))); auto. apply pair_eqb_refl.
-    + destruct (Nat.eqb (nvgl f) (n + 1)); inv E. unfold set_rows; simpl. rewrite ET.
-      destruct (Nat.eqb (nvars f) (length (varlist f))); auto. apply pair_eqb_refl.
-    + inv E. unfold set_rows; simpl. rewrite ET. destruct (Nat.eqb (nvars f) (length (varlist f))); auto. apply pair_eqb_refl.
-    + inv E. unfold set_rows; simpl. rewrite ET. destruct (Nat.eqb (nvars f) (length (varlist f))); auto. apply pair_eqb_refl.
+  - exact NG.
+  - unfold tflag_keep_ok. rewrite TF. destruct (Nat.eqb s (length (newvl a))); auto. apply pair_eqb_same.
 Qed.
 
 (* ---- applyAlongDimensions inside its safe domain ------------------------------------------------------------ *)
